@@ -112,6 +112,12 @@ fn dim_pair(v1: &[&str], c1: bool, v2: &[&str], c2: bool, same_structure: bool) 
     let (h1, h2) = (any_u8(), any_u8());
     assume(h1 >= b'a' && h1 <= b'z' && h2 >= b'a' && h2 <= b'z');
     let s = |b: u8| unsafe { String::from_utf8_unchecked(vec![b]) };
+    // Desc::new formats "$<name>" once per variable label, in order: script those results
+    fmt_script_reset_width(2);
+    let mut k = 0;
+    while k < v1.len() { fmt_script_push(b'$', v1[k].as_bytes()); k += 1; }
+    k = 0;
+    while k < v2.len() { fmt_script_push(b'$', v2[k].as_bytes()); k += 1; }
     let mut m1 = Map::new();
     if c1 { m1.insert(String::from("x"), String::from("1")); }
     let mut m2 = Map::new();
@@ -128,6 +134,7 @@ fn dim_pair(v1: &[&str], c1: bool, v2: &[&str], c2: bool, same_structure: bool) 
 
 /// dim_hash: variable-label *sets* ([x,y] vs [y,x] equal; [x] vs [y] and [x] vs [x,y] differ).
 #[cfg_attr(kani, kani::proof, kani::unwind(6),
+    kani::stub(std::fmt::format, fmt_scripted),
     kani::stub(<[crate::proto::LabelPair]>::sort, sort_stub),
     kani::stub(<fnv::FnvHasher as std::hash::Hasher>::write, fnv_write_injective))]
 pub fn c15_dim_hash_variable_label_sets() {
@@ -138,6 +145,7 @@ pub fn c15_dim_hash_variable_label_sets() {
 /// dim_hash: a const label x is not a variable label x; same const-name set with different
 /// values keeps the signature (and changes the identity).
 #[cfg_attr(kani, kani::proof, kani::unwind(6),
+    kani::stub(std::fmt::format, fmt_scripted),
     kani::stub(<[crate::proto::LabelPair]>::sort, sort_stub),
     kani::stub(<fnv::FnvHasher as std::hash::Hasher>::write, fnv_write_injective))]
 pub fn c15_dim_hash_const_vs_variable() {
